@@ -71,6 +71,9 @@ def make_inputs(r, tier, fgs):
     for s_ in (SUGARS if tier == "thorough" else r.sample(SUGARS, 12) + ["Fuc", "Rha", "Neu5Ac", "Kdo", "GlcNAc"]):
         for m_ in ([f"{p_}d" for p_ in (3, 5, 6)] + ["A", "2I2Ac", "6d6S", "1F1Me"] if tier == "thorough" else r.sample([f"{p_}d" for p_ in (3, 5, 6)] + ["A", "2I2Ac", "6d6S"], 3)):
             items.append({"iupac": s_ + m_, "kw": {}, "kind": "single-default"})
+    # residues drawn from the grammar itself (every modification form, rare tokens), alone and in small glycans
+    for gs in G.grammar_sentences(r, 60 if tier == "quick" else 800):
+        items.append({"iupac": gs, "kw": options(r) if r.random() < 0.5 else {}, "kind": "grammar"})
     # depth: ring-closure labels run out at 100 nested residues
     for d in ([30, 99, 101] if tier == "quick" else [30, 60, 98, 99, 100, 101, 120]):
         items.append({"iupac": "Gal(b1-4)" * d + "Glc", "kw": {}, "kind": "deep"})
